@@ -42,11 +42,26 @@ def gen():
     from hypothesis import strategies as st
 
     base = el.schedule_strategy(max_dur=12, max_epochs=4, chains=(1, 3), want_script=False)
-    return st.tuples(base, st.booleans()).map(lambda t: dict(t[0], builder=t[1]))
+
+    def longer(t):
+        sp, builder, nchunks, thin_pick = t
+        if nchunks:
+            # the last posterior epoch is stored in many JIT chunks (33, 34, 65, ...): chunk lists of that length are concatenated at the end
+            last = sp["epochs"][-1]
+            last[1] = sp["chunk"] * nchunks
+            divs = [d for d in range(1, last[1] + 1) if last[1] % d == 0 and d <= 6]
+            last[2] = divs[thin_pick % len(divs)]
+        return dict(sp, builder=builder)
+
+    return st.tuples(base, st.booleans(), st.sampled_from([0, 0, 0, 33, 34, 65]), st.integers(0, 5)).map(longer)
 
 
 def build_with_builder(spec):
     """Same run through EngineBuilder (replicated initial state, builder-chosen chunk)."""
+    # another builder configured earlier in the same process (in place, as the docstring suggests) must not influence this one
+    b0 = gs.EngineBuilder(seed=0, num_chains=1)
+    b0.positions_excluded.append(spec["kernels"][0]["keys"][0])
+    b0.positions_included.append("cid")
     b = gs.EngineBuilder(seed=spec["seed"], num_chains=spec["chains"])
     b.show_progress = False
     b.store_kernel_states = spec["store_ks"]
@@ -58,8 +73,8 @@ def build_with_builder(spec):
     log = []
     for k in el.make_kernels(spec, log):
         b.add_kernel(k)
-    b.positions_included = list(spec["included"])
-    b.positions_excluded = list(spec["excluded"])
+    b.positions_included.extend(spec["included"])          # (in place on the builder's own default lists)
+    b.positions_excluded.extend(spec["excluded"])
     eng = b.build()
     eng.sample_all_epochs()
     return eng
